@@ -120,6 +120,7 @@ func runCheck(args []string) int {
 		fatal("unknown property %s", id)
 	}
 	t0 := time.Now()
+	os.Setenv("MQVC_PROP_INTERNAL", id)
 	w := loadWorld()
 	w.prop = id
 	w.secrets = spec.Secrets
